@@ -368,6 +368,15 @@ fn divergence_map(set: &[Tpl]) -> BTreeMap<usize, bool> {
 // ---------------------------------------------------------------- child process
 
 fn child_main() {
+    // a small stack makes unbounded recursion die quickly; finite renders of generated sets
+    // need a few dozen frames
+    let h = std::thread::Builder::new().stack_size(1 << 20).spawn(child_work).unwrap();
+    if h.join().is_err() {
+        std::process::exit(3);
+    }
+}
+
+fn child_work() {
     let mut inp = String::new();
     std::io::stdin().read_to_string(&mut inp).unwrap();
     let j: serde_json::Value = serde_json::from_str(&inp).unwrap();
@@ -773,7 +782,7 @@ fn level_menu(full: bool) -> Vec<(BS, BS, Arr)> {
     let arrs: &[Arr] = if full {
         &[Arr::Sib, Arr::BinA, Arr::BinFilterInA, Arr::AinB, Arr::BinFilterTop, Arr::BinSetInA]
     } else {
-        &[Arr::Sib, Arr::BinA, Arr::BinFilterInA]
+        &[Arr::Sib, Arr::BinFilterInA]
     };
     let mut v = Vec::new();
     for &sa in &states {
@@ -1038,7 +1047,7 @@ fn main() {
     }
 
     // exhaustive: chains of length <= 3 over two block names
-    //   quick: the 3-arrangement menu (17 layouts per level), every chain
+    //   quick: the 2-arrangement menu (13 layouts per level), every chain
     //   thorough: the 6-arrangement menu (33 layouts per level), every chain of length <= 3
     let menu = level_menu(thorough);
     let mut exhaustive = 0usize;
@@ -1067,7 +1076,7 @@ fn main() {
         }
     }
     // chains of length 4 over the full menu: sampled
-    let n4 = if thorough { 4_000 } else { 300 };
+    let n4 = if thorough { 4_000 } else { 200 };
     let full = level_menu(true);
     for _ in 0..n4 {
         let ls: Vec<(BS, BS, Arr)> = (0..4).map(|_| *rng.pick(&full)).collect();
@@ -1076,7 +1085,7 @@ fn main() {
     }
 
     // random sets: chains and forests up to 6 templates x 5 block names
-    let n_rand = if thorough { 12_000 } else { 900 };
+    let n_rand = if thorough { 12_000 } else { 500 };
     for i in 0..n_rand {
         let (mt, mn) = if i % 3 == 0 { (4, 3) } else { (6, 5) };
         let set = rand_set(&mut rng, mt, mn, i % 2 == 0);
@@ -1086,7 +1095,7 @@ fn main() {
     meta.extra.insert("exhaustive_sets".into(), json!(exhaustive));
     meta.extra.insert("exhaustive_space".into(), json!(format!(
         "every chain of length 1..3 over block names {{b0,b1}} where each level picks one of {} layouts (each block absent / plain / with super(); arrangements {})",
-        menu.len(), if thorough { "sibling, b1 in b0, b1 in filter in b0, b0 in b1, b1 in top-level filter, b1 in set-capture in b0" } else { "sibling, b1 in b0, b1 in filter in b0" })));
+        menu.len(), if thorough { "sibling, b1 in b0, b1 in filter in b0, b0 in b1, b1 in top-level filter, b1 in set-capture in b0" } else { "sibling, b1 in filter in b0" })));
     meta.extra.insert("sets".into(), json!(st.sets));
     meta.extra.insert("accepted".into(), json!(st.accepted));
     meta.extra.insert("rejected".into(), json!(st.rejected));
